@@ -232,7 +232,8 @@ def _n4_n5_n6(ctx, R):
             for i, s in enumerate(body):
                 if isinstance(s, ast.If) and isinstance(s.test, ast.Compare) and isinstance(s.test.ops[0], ast.In) and norm(s.test.comparators[0]) == "element" \
                         and isinstance(s.test.left, ast.Constant) and s.test.left.value == keyc.value:
-                    if any(isinstance(d, ast.Delete) for d in ast.walk(s)):
+                    if any(isinstance(d, ast.Delete) or (isinstance(d, ast.Call) and isinstance(d.func, ast.Attribute) and d.func.attr == "pop" and d.args
+                                                       and repr(keyc.value) in norm(d.args[0])) for d in ast.walk(s)):
                         dels.append(i)
             inst = "%s.update[%s]" % (cls.name, keyc.value)
             if not ins:
